@@ -88,6 +88,10 @@ type Exec struct {
 	objs      map[string]Value // per-path named singletons (opaque objects)
 	clock     *Term
 	model       map[string]uint64 // satisfies the current pc when non-nil
+	codecLog    []codecEntry
+	gzipLog     []gzipEntry
+	codecHits   int
+	havocSeq    int
 	mapOrderAny bool
 	observed    []string
 
